@@ -418,8 +418,14 @@ func methodCallsD(fn *ssa.Function, depth int) []orderedCall {
 				continue
 			}
 			if h := helperCallee(ins); h != nil && depth < 3 {
-				// extracted helper: its calls happen here, in order
-				out = append(out, methodCallsD(h, depth+1)...)
+				// extracted helper: its calls happen here, in order (rendered for this call site)
+				enteredBy[h] = c
+				for _, oc := range methodCallsD(h, depth+1) {
+					if oc.name == "Write" && len(oc.args) == 1 && oc.args[0] == "nil" {
+						continue // Write(nil) absorbs nothing
+					}
+					out = append(out, oc)
+				}
 				continue
 			}
 			cc := c.Common()
